@@ -10,7 +10,7 @@
     [<m>_spec] (statement read off the docstring, or Lib/Extra.v) and one [<m>_wf] per method.
     Quantification is over all [pat] (not only propositional patterns) and all premise thunks. *)
 From Coq Require Import NArith List Bool.
-From Pi2 Require Import ML.Syntax ML.Subst ML.Machine Lib.Term Lib.TermFacts Lib.Replay Gen.PropLib Gen.PropLibSpec.
+From Pi2 Require Import ML.Syntax ML.Subst ML.Machine Lib.Term Lib.TermFacts Lib.Replay Lib.Embed Gen.PropLib Gen.PropLibSpec.
 Import ListNotations.
 Open Scope N_scope.
 
@@ -47,6 +47,51 @@ Theorem C10_replays_partial : forall axs t c st,
   replay t st = Some (push (TProved c) st).
 Proof. exact replay_correct. Qed.
 Print Assumptions C10_replays_partial.
+
+(** (4) FULL replay, through C02's stack-compiler correctness ([PTerm/Compile.v compile_correct],
+    [PTerm/LibWf.v lib_wf]).  [compiles_to axs x s] (Lib/Embed.v): [x] is a thunk [(t, s)], [t] replays by the
+    documented rules to [s] using only Prop1-3 / MP / Instantiate / declared axioms, and for EVERY transformer
+    stack [ls] (memoiser with any set), symbol table and serialiser state in which the serialiser emits bytes
+    [bs] for the embedded term ([PTerm.Model.compile ls axs (emb t) tbl st = Some (tbl', st', bs, c)]; it
+    declines only for ids/indices >= 256 or an assumption missing from memory), [c = s] and
+      [exec guards_sound ph bs (mkst K mem C) = Some (mkst (TProved (map_sym T s) :: K) mem' C)]
+    on ANY checker stack [K], in any phase -- pattern construction of all plugs, Save/Load included.
+    [all_replays] is the generated conjunction, one statement per translated method [m]:
+      docstring rules:  [ax_incl <class axioms> axs -> pok <pattern args> ->
+                         (conc h = Some <premise schema> -> owf axs h -> sok h ->)*
+                         compiles_to axs (m args) <schema instance>]
+      Extra.v rules:    the same premises, [conc (m args) = Some s -> compiles_to axs (m args) s]
+                        ([s] is characterised by [<m>_spec]).
+    CLASS COVERED ([C02_lib_wf]'s): [pok p] = [p] substitution-free, all metavariables unconstrained, every
+    Mu positive ([LibWf.simple p && Model.pat_wf p]) for every pattern argument; [sok h] = the premise's term
+    is in C02's propositional fragment ([simple_term]) and its conclusion is [pok].  Outside that class the
+    unrestricted statement is FALSE (C02_refuted_*: non-positive Mu, redundant substitution, constrained
+    metavariables are accepted by the toolkit and rejected by the checker). *)
+Theorem C10_replays : all_replays.
+Proof. exact all_replays_hold. Qed.
+Print Assumptions C10_replays.
+
+Theorem C10_replays_any_thunk : forall axs x s,
+  conc x = Some s -> owf axs x -> sok x -> compiles_to axs x s.
+Proof. exact replays_full. Qed.
+Print Assumptions C10_replays_any_thunk.
+
+(** non-vacuity of (4): the hypotheses hold and the serialiser does emit bytes (here 1 913 of them for a 128-rule proof, with
+    the memoiser on), which the checker model executes to [Proved (x0 -> x0 /\ x0)] *)
+Example C10_replays_nonvacuous :
+  let x := iand (imp_refl (EVar 0)) (imp_refl (EVar 0)) in
+  sok x /\ owf [] x /\
+  exists t s tbl' st' bs,
+    x = Some (t, s) /\
+    PM.compile [PM.LMemo [Imp (EVar 0) (EVar 0)]] [] (emb t) [] (PM.mksst [] [] [] Proof) = Some (tbl', st', bs, s) /\
+    (1900 <? N.of_nat (length bs)) = true /\
+    exec guards_sound Proof bs st0 = Some (mkst [TProved s] (map (PS.map_term tbl') (PM.s_mem st')) []).
+Proof.
+  cbv zeta. split; [|split].
+  - apply iand_sok; apply imp_refl_sok; reflexivity.
+  - apply iand_wf; [apply ax_incl_nil | |]; apply imp_refl_wf; apply ax_incl_nil.
+  - vm_compute. do 5 eexists. split; [reflexivity|]. split; [reflexivity|]. split; reflexivity.
+Qed.
 
 (** non-vacuity: premises of the required shape exist, are replayable, and the rules then deliver *)
 Example C10_nonvacuous_rule :
